@@ -116,7 +116,7 @@ theorem sortByRank_stable {α : Type} (rank : α → Nat) (l : List α) (k : Nat
 theorem rank_order (r : String) (c : Option CodeCfg) (o : Option ArgCfg) (a : ArgCfg) (ix : List (String × IdxCfg))
     (ec : Option (Nat × CodePos × List (String × Int))) (d : List (String × Int)) (p q : String) (va : Bool)
     (zs ze : Int) (sl : Bool) (mn mx : Option Int) (fe cu : Bool) (n : Nat) (pos : CodePos) (lo hi : Int) :
-    (OperandCfg.indReg r c o).rank < (OperandCfg.indIdxReg r c ix).rank ∧
+    (OperandCfg.indReg r c o p q).rank < (OperandCfg.indIdxReg r c ix).rank ∧
     (OperandCfg.indIdxReg r c ix).rank < (OperandCfg.indNum c a).rank ∧
     (OperandCfg.indNum c a).rank < (OperandCfg.defNum c a).rank ∧
     (OperandCfg.defNum c a).rank < (OperandCfg.idxReg r c ix).rank ∧
@@ -195,7 +195,7 @@ theorem register_accepts_iff (regs : List String) (gz : Int × Int) (id r s : St
 /-- non-vacuity: `[a+5]` with an indirect register (rank 2) and an indirect indexed register
     (rank 3) in one set selects the former whatever the definition order -/
 example :
-    let ir : String × OperandCfg := ("ir", .indReg "a" (some ⟨1, 4, .suffix⟩) (some ⟨8, true, false⟩))
+    let ir : String × OperandCfg := ("ir", .indReg "a" (some ⟨1, 4, .suffix⟩) (some ⟨8, true, false⟩) "" "")
     let ii : String × OperandCfg := ("ii", .indIdxReg "a" (some ⟨2, 4, .suffix⟩) [("n", .numeric none ⟨8, true, false⟩)])
     let f : Form := .ind (.bin .add (.label "a") (.num 5))
     (match matchSet ["a"] (0, 65535) [ii, ir] f with | .ok p => p.id == "ir" | _ => false) = true ∧
